@@ -1706,6 +1706,38 @@ def format_line_declines_only_by_line_type(prog, rep, R):
               where="%s:%d" % (b.file, b.line), instance={"declining_paths": declined, "paths_to_the_search": handed})
 
 
+def returns_to_the_indifferent_decision_requeue_both(prog, rep, R):
+    """C11.n — "a result that fits a narrower limit is also what the wider limit produces": the search collapses runs of `Indifferent`
+    decisions into Continue and remembers the first of them; whenever it has to go back there (the collapsed line got too long, ran
+    into a dead end, met several successors) it re-queues BOTH successors of the remembered decision.  Sibling agreement of the
+    back-tracking sites: every call of the successor generator on the remembered decision with `Break` is paired with one with
+    `Continue` at the same site.  A site that re-queues Break only explores less exactly when the text up to the forcing token fits —
+    which depends on the limit: the wider limit then breaks a bracket group open that the narrower one keeps together."""
+    b = prog.body(OLF + "InternalOptimisingLineFormatter::find_optimal_solution")
+    if not rep.check(b is not None, R, "anchor:find_optimal_solution", "find_optimal_solution not found"):
+        return
+    sites = []
+    for c in b.calls():
+        cal = c.callee or ""
+        if not ("ops::function::Fn" in cal and cal.split("::")[-1] in ("call", "call_mut", "call_once")) or len(c.args) < 2:
+            continue
+        t = canon(b, c.args[1])
+        m = re.match(r"^tuple\{RawDecision::(Break|Continue)\{\},(.*)\}$", t)
+        if m and "indifference_line@Some.0" in m.group(2):
+            sites.append((c, m.group(1)))
+    if not rep.check(len(sites) >= 2, R, "anchor:returns-to-the-indifferent-decision", "find_optimal_solution no longer re-queues the successors of the remembered indifferent decision (%d calls)" % len(sites)):
+        return
+    lonely = []
+    for c, d in sites:
+        other = "Continue" if d == "Break" else "Break"
+        if not any(d2 == other and (b.dominates(c.bb, c2.bb) or b.dominates(c2.bb, c.bb)) for c2, d2 in sites):
+            lonely.append("%s only @%s" % (d, c.where()))
+    rep.check(not lonely, R, "both-successors-at-every-return",
+              "a back-tracking site of the search re-queues only one successor of the remembered indifferent decision (%s) while its siblings re-queue both: the layouts that keep the earlier "
+              "groups together are then found only when another site (line too long) fires first, which depends on wrap_column" % lonely[:2],
+              where=lonely and lonely[0].split("@")[-1] or None, instance={"return_calls": len(sites), "unpaired": lonely[:3]})
+
+
 def check_c08(prog, rep, tier, cfg):
     line_comment_trailing_blanks(prog, rep, "C08.d")
     # a gap nobody decides keeps the input's blank count: more than one space between two tokens on a line
@@ -2680,6 +2712,7 @@ def check_c11(prog, rep, tier, cfg):
     search_prunes_by_penalty_alone(prog, rep, "C11.j")
     line_spanning_kinds_measured(prog, rep, "C11.k")
     line_end_follows_child_lines(prog, rep, "C11.m")
+    returns_to_the_indifferent_decision_requeue_both(prog, rep, "C11.n")
     # C11.l — what is compared with wrap_column is measured in one unit everywhere (shared with C03.g): a line measured in characters at one
     # place and in bytes at another fits by one measure and sticks out by the other, and which one decides depends on the width
     width_measures_agree(prog, rep, "C11.l")
